@@ -37,6 +37,7 @@ ROLES = {
     "counter value: zeroing add -> waiter": dict(rel=["ca_3_cas"], mid=["ca_3_cas"], acq=["cr_2_ld", "wr_2_ld", "cv_1_ld", "cw_1_ld", "ce_2_ld", "cd_2_ld"]),
     "once word: run -> return": dict(rel=["ro_9_st"], mid=[], acq=["ro_1_ld", "ro_2_ld", "ro_10_ld"]),
     "note notified: notify -> observation": dict(rel=["nc_2_st"], mid=[], acq=["nd_1_ld", "nc_1_ld", "nt_2_ld", "nd_3_ld", "ne_2_ld", "nq_3_ld", "sc_4_ld", "sc_8_ld"]),
+    "pool spinlock: free list": dict(rel=["pn_3_st", "pf_3_st", "px_3_st"], mid=[], acq=["sp_2_cas"]),
     "semaphore count: V -> P": dict(rel=["v_cas"], mid=["v_cas", "p_cas"], acq=["p_cas"]),
 }
 
@@ -112,6 +113,9 @@ def main(tier, replay=None):
         res2 = l2lib.run_family(run, exe2, spec, "C03", cfgs, cf_, set(), {"O-hb"}, env={"VERIF_HB": "1"})
         for name, conf, out in res2:
             collect(out["res"])
+    # ---- (1b') the waiter pool's spinlock orders the plain operations on the free list (Pool.tla replays)
+    import c02
+    c02.pool_part(run, prop="C03", env={"VERIF_HB": "1"}, on_res=collect, wanted_or={"O-hb", "O-crash"})
     # ---- (1c) L0: the futex semaphore
     import c12
     exes = build("h_sem")
